@@ -159,3 +159,30 @@ claim("C11",
       "non_shared bytes with the value after it, and nothing in the reader reads the writer's restart interval. Behaviour on legal encodings today's writer never produces is exactly what "
       "only an independent encoder can exercise; it is not decided.",
       "Trusts T-format, additive parsing of pointer expressions (no subtraction), loop bound 1.")
+
+claim("C01",
+      "writer/reader entry codec agreement against the format table, exactly-once pass-through and life-cycle rules over abstract paths, decision table of mtbl_dump's filter",
+      "Decides: block_builder_add's emit sequence and decode_entry/parse_next_key's parse sequence both equal the entry row of T-format (hence each other); every accepted add reaches the data "
+      "block builder exactly once with the caller's key/value after any block cut and a refused add never does; a finished builder is reset before reuse, a cut block goes either to the pool "
+      "once or is compressed then written once, finish runs flush < join < index block < one 512-byte trailer; an exhausted block makes next advance the index once, load the block it names "
+      "and position at its first entry, failing only at the end of the index; mtbl_dump prints an entry iff not silent and both prefix tests (length and bytes) and both minimum lengths hold. "
+      "That prefix sharing, restart offsets and block cuts compose to the identity for every key sequence and configuration, and the compression libraries, are not decided.",
+      "Trusts T-format, the varint codecs (C16 not claimed), loop bound 1, three-valued evaluation of the dump formula over the atoms each path constrains.")
+
+claim("C12",
+      "must-pass-through of a NORETURN-guarded CRC comparison over exactly the decoded bytes on every verify-enabled path to block decoding, who-may-call rules, loop/propagation rules for mtbl_verify, liveness of assert in the build",
+      "Decides: blocks become decodable only through get_block and mtbl_reader_init_fd and stored bytes are decompressed only in get_block; on each of their paths with verify_checksums set, "
+      "the stored CRC (the four bytes in front of the payload) is required equal to mtbl_crc32c over exactly the (pointer,length) later handed to decompression/block_init, with the failing edge "
+      "NORETURN; the writer-side CRC scope of C09.R2; mtbl_verify visits every data block, returns false on a mismatch or overrun, prints OK and exits 0 only when everything verified, and opens "
+      "the reader with verification on so the index block is covered; asserts are compiled in (no NDEBUG, 60+ live failure edges). Detection strength of CRC-32C is mathematics and the implementation "
+      "is C17.",
+      "Trusts clang's NORETURN knowledge of __assert_fail, the flags reported by make -n / Makefile.am / config.status, loop bound 1.")
+
+claim("C06",
+      "path rules over mtbl/sorter.c: refusal gate purity, spill decision table, who-may-create-files with template derivation, fold typestate per chunk, final merger construction",
+      "Decides: mtbl_sorter_add and mtbl_sorter_write fail without any store, call or allocation once `iterating` is set and mtbl_sorter_iter sets it whenever it returns an iterator; an entry's "
+      "allocation size is what is accounted and a spill happens iff entry_bytes + vector bytes >= max_memory after accounting, the batch hand-over resets both; mkstemp in the chunk writer is the "
+      "sorter's only file creation, its template starts with the configured directory followed by one file-name component, and the file is unlinked on every path; the whole batch is sorted by key "
+      "first, neighbours are folded iff their keys are equal and otherwise written, no entry is freed twice; the final merger gets the sorter's merge function/closure and every chunk reader, after "
+      "the join. That chunking never changes the result and qsort/merge behaviour on values are not decided.",
+      "Trusts T-cmp rows 16-18, mkstemp/unlink semantics, loop bound 1.")
